@@ -49,6 +49,22 @@ example : run init [[6], [2, 1], [2, 0xfd, 3], [0x20, 1, 7], []] = ([[6, 2, 1, 2
       · exact ⟨⟨0x320, [7], by decide, by decide⟩, by decide⟩)
     (by decide)
 
+/-- **C11, reads that come with an ignored error.**  The same for read results `(bytes, ignored error?)`
+    — a transient socket error the transport chooses to ignore, reported alone or TOGETHER with
+    data: no byte is lost, the frames are exactly the blocks. -/
+theorem stream_refines_blocks_ignored_errors (blocks : List Bytes) (script : List ReadRes)
+    (hadm : Admissible blocks) (hcut : (script.map (·.1)).flatten = blocks.flatten) :
+    runE init script = (blocks, Outcome.eof) :=
+  stream_refines_blocks blocks _ hadm hcut
+
+example : runE init [([6, 2], true), ([], true), ([1, 2], false)] = ([[6, 2, 1, 2]], Outcome.eof) :=
+  stream_refines_blocks_ignored_errors [[6, 2, 1, 2]] _
+    (by
+      intro b hb
+      simp at hb; subst hb
+      exact ⟨⟨6, [1, 2], by decide, by decide⟩, by decide⟩)
+    (by decide)
+
 /-- **C11, prompt delivery (refinement of the abstract receiver after every read).**  At any moment
     — `chunks` received so far, `later` still to come — the frames handed up so far are exactly the
     blocks completely contained in the bytes received so far (`completeBlocks`): a block is handed
